@@ -37,6 +37,7 @@ import (
 func init() {
 	execs["c16.msg"] = execC16Msg
 	execs["c16.tx"] = execC16Tx
+	execs["c16.lvl"] = execC16Lvl
 	execs["c16.lib"] = execC16Lib
 	execs["c16.conc"] = execC16Conc
 	execs["c16.htx"] = execC16HistTx
@@ -163,6 +164,162 @@ func c16DecodeMsg(dag []Node, root int, withHasher bool) sx.V {
 		return c16Fail("decoded-unhashable-cell")
 	}
 	return c16MsgView(&m, srcHash)
+}
+
+// c16.lvl (dag root kind warm): cells of non-zero level (pruned branches / Merkle
+// cells below) with the caching hasher warmed beforehand in the way [warm] says.
+// Every identity-hash entry point must give one and the same value: Cell.Hash,
+// Hash256, HashString, Hasher.Hash (twice), Hasher.HashString, and the hash the
+// decoded Message / Transaction (and its in_msg) reports with that decoder.
+//   warm 0 nothing; 1 the enclosing tree (cell 0) first; 2 the other children of
+//   the enclosing cell first; 3 the record itself (Hash, HashString); 4 every
+//   cell, last to first; 5 every cell, first to last; 6 the record hashed, its
+//   read cursors moved and reset, hashed again; 7 an enclosing transaction /
+//   the record itself decoded first with the same decoder.
+func execC16Lvl(in sx.V) sx.V {
+	dag := dagFromSx(in.List[0])
+	root, kind, warm := in.List[1].I(), in.List[2].I(), in.List[3].I()
+	ref, err := buildGo(dag)
+	if err != nil {
+		return sx.A("build-err")
+	}
+	want, werr := ref[root].Hash() // a tree nobody else touches, no cache
+	cells, _ := buildGo(dag)
+	c := cells[root]
+	dec := tlb.NewDecoder()
+	hs := dec.Hasher()
+	switch warm {
+	case 1:
+		_, _ = hs.Hash(cells[0])
+	case 2:
+		for _, sib := range cells[0].Refs() {
+			if sib != c {
+				_, _ = hs.Hash(sib)
+			}
+		}
+	case 3:
+		_, _ = hs.Hash(c)
+		_, _ = hs.HashString(c)
+	case 4:
+		for i := len(cells) - 1; i >= 0; i-- {
+			_, _ = hs.Hash(cells[i])
+		}
+	case 5:
+		for i := 0; i < len(cells); i++ {
+			_, _ = hs.HashString(cells[i])
+		}
+	case 6:
+		_, _ = hs.Hash(c)
+		_, _ = c.ReadBit()
+		_, _ = c.NextRef()
+		c.ResetCounters()
+		_, _ = hs.Hash(c)
+	case 7:
+		var tx tlb.Transaction
+		var m tlb.Message
+		_ = dec.Unmarshal(cells[0], &tx)
+		cells[0].ResetCounters()
+		if kind == 0 {
+			_ = dec.Unmarshal(c, &m)
+		} else {
+			_ = dec.Unmarshal(c, &tx)
+		}
+		c.ResetCounters()
+	}
+	if werr != nil {
+		if _, e := hs.Hash(c); e == nil {
+			return c16Fail("hasher-hashes-what-cell-hash-refuses")
+		}
+		return sx.L(sx.A("err"), sx.A("err"))
+	}
+	hex := fmt.Sprintf("%x", want)
+	check := func(name string, got []byte, e error) string {
+		if e != nil || !bytes.Equal(got, want) {
+			return name
+		}
+		return ""
+	}
+	var bad string
+	note := func(s string) {
+		if bad == "" {
+			bad = s
+		}
+	}
+	h1, e1 := hs.Hash(c)
+	note(check("Hasher.Hash", h1, e1))
+	h2, e2 := hs.Hash(c)
+	note(check("Hasher.Hash-again", h2, e2))
+	if s, e := hs.HashString(c); e != nil || s != hex {
+		note("Hasher.HashString")
+	}
+	h3, e3 := c.Hash()
+	note(check("Cell.Hash", h3, e3))
+	h4, e4 := c.Hash256()
+	note(check("Cell.Hash256", h4[:], e4))
+	if s, e := c.HashString(); e != nil || s != hex {
+		note("Cell.HashString")
+	}
+	var decoded sx.V
+	if kind == 0 {
+		var m tlb.Message
+		if err := dec.Unmarshal(c, &m); err != nil {
+			decoded = sx.A("err")
+		} else {
+			h := m.Hash(false)
+			note(check("Message.Hash(false)", h[:], nil))
+			hn := m.Hash(true)
+			if m.Info.SumType != "ExtInMsgInfo" {
+				note(check("Message.Hash(true)", hn[:], nil))
+			}
+			h = m.Hash(false)
+			note(check("Message.Hash(false)-after-Hash(true)", h[:], nil))
+			var m2 tlb.Message // and without the hasher
+			c.ResetCounters()
+			if err := tlb.Unmarshal(c, &m2); err != nil || m2.Hash(false) != m.Hash(false) || m2.Hash(true) != hn {
+				note("Message-without-hasher")
+			}
+			decoded = sx.L(sx.Bytes(h[:]), sx.Bytes(hn[:]))
+		}
+	} else {
+		var tx tlb.Transaction
+		if err := dec.Unmarshal(c, &tx); err != nil {
+			decoded = sx.A("err")
+		} else {
+			h := tx.Hash()
+			note(check("Transaction.Hash", h[:], nil))
+			inmsg := sx.L()
+			if tx.Msgs.InMsg.Exists {
+				mc := ref[root].Refs()[0].Refs()[0]
+				if mc.CellType() != boc.PrunedBranchCell {
+					mh, _ := mc.Hash()
+					ih := tx.Msgs.InMsg.Value.Value.Hash(false)
+					if !bytes.Equal(ih[:], mh) {
+						note("Transaction.in_msg.Hash(false)")
+					}
+					// the in_msg cell on its own, cache hit of the same decoder
+					var m tlb.Message
+					live := c.Refs()[0].Refs()[0]
+					if err := dec.Unmarshal(live, &m); err != nil || m.Hash(false) != ih {
+						note("in_msg-decoded-again")
+					}
+					if hh, e := hs.Hash(live); e != nil || !bytes.Equal(hh, mh) {
+						note("Hasher.Hash(in_msg)")
+					}
+					inmsg = sx.L(sx.Bytes(ih[:]))
+				}
+			}
+			var tx2 tlb.Transaction
+			c.ResetCounters()
+			if err := tlb.Unmarshal(c, &tx2); err != nil || tx2.Hash() != h {
+				note("Transaction-without-hasher")
+			}
+			decoded = sx.L(sx.Bytes(h[:]), inmsg)
+		}
+	}
+	if bad != "" {
+		return c16Fail("identity-hash-entry-point-differs:" + strings.ReplaceAll(bad, " ", ""))
+	}
+	return sx.L(sx.Bytes(want), decoded)
 }
 
 // c16.conc (dag root kind): K goroutines call Hash(false) / Hash(true) on ONE
@@ -1756,6 +1913,7 @@ func (g *c16Gen) real(budgetMsg, budgetTx, maxMsgBlocks, maxTxBlocks, nHist int)
 	}
 	g.txHistories(txDags, nHist)
 	g.cellCountBoundaries(txDags)
+	g.levels(g.c.Scale(56, 1400), g.c.Scale(10, 150), txDags)
 	// concurrent Hash / SourceBoc on one decoded transaction
 	for i := 0; i < minInt(len(txDags), g.c.Scale(3, 12)); i++ {
 		g.emitConc(txDags[i], 1, "conc/tx")
@@ -1867,14 +2025,30 @@ func (g *c16Gen) msgHistories(n int) {
 			if !ok {
 				continue
 			}
-			if len(srcs) > 0 && r.Chance(20) { // fails after the hash was taken: hash replaced, fields kept
+			if len(srcs) > 0 && (r.Chance(35) || i < 6) { // fails after the hash was taken: hash replaced, ALL fields kept
 				d = c16CloneDag(d)
-				d[0].Bits = d[0].Bits[:r.Intn(minInt(len(d[0].Bits), 40))]
+				switch r.Intn(3) {
+				case 0: // early: inside CommonMsgInfo
+					d[0].Bits = d[0].Bits[:r.Intn(minInt(len(d[0].Bits), 40))]
+				case 1: // anywhere
+					d[0].Bits = d[0].Bits[:r.Intn(len(d[0].Bits))]
+				default: // late: info and init decode, the body does not (its reference / flag is missing)
+					if k := len(d[0].Refs); k > 0 && d[0].Bits[len(d[0].Bits)-1] == '1' {
+						d[0].Refs = d[0].Refs[:k-1]
+					} else {
+						d[0].Bits = d[0].Bits[:len(d[0].Bits)-1-r.Intn(minInt(len(d[0].Bits)-1, 3))]
+					}
+				}
+				d = c16Topo(d, 0)
 				fam = "syn+bad"
 			}
 			srcs = append(srcs, d)
 		}
 		ops, class := c16Ops(r, k, 2+r.Intn(3), true)
+		if i < 6 { // good, bad, observe everything
+			ops, class = []sx.V{c16Op(0, sx.Nat(0), sx.B(i%2 == 0)), c16Op(2, sx.B(false)), c16Op(0, sx.Nat(1), sx.B(i%3 == 0)),
+				c16Op(1), c16Op(2, sx.B(false)), c16Op(4)}, "fixed-good-bad"
+		}
 		ops = append(ops, c16Op(4))
 		g.emitHist("c16.hmsg", srcs, ops, "hist/"+fam+"/"+class)
 	}
@@ -1919,6 +2093,160 @@ func (g *c16Gen) libraryRoots(n int) {
 		out := g.c.Emit("c16.lib", in, label)
 		if out.Head() == "oracle-fail" {
 			g.c.Fail("c16.lib", in, "C16/"+out.List[1].Atom, out.List[1].Atom)
+		}
+	}
+}
+
+// c16FixMasks recomputes the level masks of the ordinary cells from their
+// children (exotic cells keep theirs).
+func c16FixMasks(dag []Node) {
+	for i := len(dag) - 1; i >= 0; i-- {
+		if !dag[i].Special {
+			var m uint8
+			for _, r := range dag[i].Refs {
+				m |= dag[r].Mask
+			}
+			dag[i].Mask = m
+		}
+	}
+}
+
+// c16LevelPool: a pool whose cell 0 has level mask [mask]: [depth] ordinary
+// cells on top of a pruned branch with that mask; optionally a Merkle proof /
+// update cell in between (mask shifted), and ordinary side leaves.
+func c16LevelPool(r *prng.R, mask uint8, depth int, merkle int) []Node {
+	k := popcount8(mask)
+	data := []byte{1, mask}
+	data = append(data, r.Bytes(32*k)...)
+	for j := 0; j < k; j++ {
+		d := r.Intn(900)
+		data = append(data, byte(d>>8), byte(d))
+	}
+	// built bottom-up, reversed at the end
+	rev := []Node{{Special: true, Mask: mask, Bits: hexBits(data)}}
+	top := func() int { return len(rev) - 1 }
+	switch merkle {
+	case 1: // Merkle proof over the pruned branch: mask >> 1
+		d := r.Intn(900)
+		b := append([]byte{3}, r.Bytes(32)...)
+		b = append(b, byte(d>>8), byte(d))
+		rev = append(rev, Node{Special: true, Mask: mask >> 1, Bits: hexBits(b), Refs: []int{top()}})
+	case 2: // Merkle update over the pruned branch and an ordinary leaf
+		rev = append(rev, Node{Bits: randBits(r, 9)})
+		b := append([]byte{4}, r.Bytes(68)...)
+		rev = append(rev, Node{Special: true, Mask: mask >> 1, Bits: hexBits(b), Refs: []int{top() - 1, top()}})
+	}
+	for d := 0; d < depth; d++ {
+		nd := Node{Bits: randBits(r, r.Pick([]int{0, 1, 8, 40, 255})), Refs: []int{top()}}
+		if r.Chance(40) {
+			rev = append(rev, Node{Bits: randBits(r, 5+r.Intn(30))})
+			nd.Refs = append(nd.Refs, top())
+			if r.Bool() {
+				nd.Refs[0], nd.Refs[1] = nd.Refs[1], nd.Refs[0]
+			}
+		}
+		rev = append(rev, nd)
+	}
+	n := len(rev)
+	out := make([]Node, n)
+	for i, nd := range rev {
+		m := Node{Special: nd.Special, Mask: nd.Mask, Bits: nd.Bits}
+		for _, x := range nd.Refs {
+			m.Refs = append(m.Refs, n-1-x)
+		}
+		out[n-1-i] = m
+	}
+	c16FixMasks(out)
+	return out
+}
+
+// records of non-zero level below an enclosing cell, hasher warmed in all ways
+func (g *c16Gen) levels(nMsg, nTx int, txDags [][]Node) {
+	r := g.c.R
+	emit := func(dag []Node, root, kind, warm int, class string) {
+		in := sx.L(dagSx(dag), sx.Nat(root), sx.Nat(kind), sx.Nat(warm))
+		out := g.c.Emit("c16.lvl", in, class)
+		if out.Head() == "oracle-fail" {
+			g.c.Fail("c16.lvl", in, "C16/"+strings.SplitN(out.List[1].Atom, ":", 2)[0], out.List[1].Atom)
+		}
+	}
+	for i := 0; i < nMsg; i++ {
+		mask := uint8(1 + i%7)
+		depth := r.Pick([]int{0, 0, 1, 2, 3, 6})
+		merkle := 0
+		if mask > 1 && r.Chance(30) {
+			merkle = 1 + r.Intn(2)
+		}
+		pool := c16LevelPool(r, mask, depth, merkle)
+		sp := c16RandSpec(r, len(pool))
+		sp.Extra, sp.Init.Lib = 0, 0
+		if i%4 != 3 {
+			sp.Kind = 1
+			sp.Src, sp.Dest = c16RandAddr(r, false, false), c16RandAddr(r, true, false)
+		}
+		// where the levelled cell hangs: body reference(s), code / data of the init
+		place := "body"
+		switch i % 3 {
+		case 0:
+			sp.BodyRefs = []int{0}
+		case 1:
+			sp.BodyRefs = []int{0}
+			if len(pool) > 1 {
+				sp.BodyRefs = append(sp.BodyRefs, len(pool)-1)
+			}
+			sp.BodyRef = true
+		default:
+			sp.InitMode, sp.Init.Code, sp.BodyRefs, place = 1+r.Intn(2), 0, nil, "code"
+		}
+		msg, _, ok := c16Build(r, sp, pool)
+		if !ok {
+			continue
+		}
+		c16FixMasks(msg)
+		// an enclosing cell with two siblings around the record
+		dag := []Node{{Bits: randBits(r, 12)}}
+		for _, nd := range msg {
+			m := Node{Special: nd.Special, Mask: nd.Mask, Bits: nd.Bits}
+			for _, x := range nd.Refs {
+				m.Refs = append(m.Refs, x+1)
+			}
+			dag = append(dag, m)
+		}
+		sibB, sibA := len(dag), len(dag)+1 // sibB refers to sibA: references point forward
+		dag = append(dag, Node{Bits: randBits(r, 33), Refs: []int{sibA}}, Node{Bits: randBits(r, 20)})
+		dag[0].Refs = []int{sibA, 1, sibB}
+		c16FixMasks(dag)
+		warm := i % 8
+		root := 1
+		if i%11 == 10 {
+			root = 0 // the enclosing cell itself (not a message: only the cell hashes)
+		}
+		emit(dag, root, 0, warm, fmt.Sprintf("lvl/msg/m%d/%s/w%d", mask, place, warm))
+	}
+	for i := 0; i < nTx && len(txDags) > 0; i++ {
+		mask := uint8(1 + i%7)
+		pool := c16LevelPool(r, mask, r.Intn(3), 0)
+		sp := c16RandSpec(r, len(pool))
+		sp.Extra, sp.Init.Lib, sp.InitMode = 0, 0, 0
+		sp.Kind = r.Pick([]int{0, 1, 1})
+		sp.Src, sp.Dest = c16RandAddr(r, sp.Kind == 0, false), c16RandAddr(r, true, false)
+		sp.BodyRefs, sp.BodyRef = []int{0}, r.Bool()
+		msg, _, ok := c16Build(r, sp, pool)
+		if !ok {
+			continue
+		}
+		c16FixMasks(msg)
+		tx := txDags[r.Intn(minInt(len(txDags), 4))]
+		d, ok := c16GraftInMsg(tx, msg)
+		if !ok {
+			continue
+		}
+		c16FixMasks(d)
+		warm := r.Pick([]int{0, 3, 4, 5, 6, 7})
+		emit(d, 0, 1, warm, fmt.Sprintf("lvl/tx/m%d/w%d", mask, warm))
+		// and the in_msg cell of that transaction as the record, the transaction enclosing it
+		if c1 := d[0].Refs[0]; len(d[c1].Refs) > 0 {
+			emit(d, d[c1].Refs[0], 0, r.Pick([]int{1, 4, 7}), fmt.Sprintf("lvl/tx-inmsg/m%d", mask))
 		}
 	}
 }
